@@ -163,13 +163,25 @@ inline std::vector<Mut> catalogue(mpz_srcptr v, mpz_srcptr p, mpz_srcptr q, Spli
 	mpz_set_ui(t, 1); mpz_mul_2exp(t, t, 2049); add("huge", t);
 	mpz_set_ui(t, 1); mpz_mul_2exp(t, t, mpz_sizeinbase(q, 2)); mpz_mul(t, t, q); mpz_add(t, t, v); add("plusq2k", t);   // same residue, longer than the table
 	mpz_add(t, v, p); add("plusp", t);
+	// congruent values further out than one period (a range check written with mpz_cmp instead of mpz_cmpabs lets the
+	// negative ones pass and reduces them silently)
+	mpz_submul_ui(t = Z(v), q, 2); add("minus2q", t);
+	mpz_submul_ui(t = Z(v), q, 3); add("minus3q", t);
+	mpz_addmul_ui(t = Z(v), q, 2); add("plus2q", t);
+	{ Z w; mpz_set_ui(w, 1); mpz_mul_2exp(w, w, mpz_sizeinbase(q, 2)); mpz_mul(w, w, q); mpz_sub(t, v, w); add("minusq2k", t); }
+	mpz_addmul_ui(t = Z(v), p, 2); add("plus2p", t);
+	mpz_sub(t, v, p); add("minusp", t);
+	mpz_submul_ui(t = Z(v), p, 2); add("minus2p", t);
 	return r;
 }
 
 // may an accepted single-value mutant be tolerated?  Only a negative representative of the same residue
 // modulo the order (DESIGN O3: range checks written with mpz_cmpabs / "< q" let those pass; they are below q).
+// The code's own rule is |x| < q: x - q (for 0 <= x < q) is the one equivalent representation; anything further out
+// (x - 2q, x - 3q, ...) has to be refused, not reduced.
 inline bool tolerated(mpz_srcptr oldv, mpz_srcptr newv, mpz_srcptr q) {
 	if (mpz_sgn(newv) >= 0) return false;
+	if (mpz_cmpabs(newv, q) >= 0) return false;
 	Z a, b; mpz_mod(a, oldv, q); mpz_mod(b, newv, q);
 	return mpz_cmp(a, b) == 0;
 }
